@@ -87,6 +87,11 @@ class SerEnv:
         self.sim.io = io
         self.io = io
         Sim.current = self.sim
+        import tempfile
+
+        self._old_tempdir = tempfile.tempdir
+        tempfile.tempdir = io.tmp_root   # mkstemp/NamedTemporaryFile/... also land in the sandbox
+        self._old_cwd = os.getcwd()
         self._zcfg = zarr.config.set(dict(self.env.get("zarr", {})))
         self._zcfg.__enter__()
         return self
@@ -104,6 +109,13 @@ class SerEnv:
             except Exception:
                 pass
             Sim.current = None
+            import tempfile
+
+            tempfile.tempdir = self._old_tempdir
+            try:
+                os.chdir(self._old_cwd)
+            except Exception:
+                pass
             gc.collect()  # finalise TemporaryDirectory objects of load() before the sandbox goes
             simstore.drop_sandbox(self.sandbox)
         return False
@@ -111,6 +123,10 @@ class SerEnv:
     # ---------------------------------------------------------------------------------
     def path(self, name, kind="str"):
         p = os.path.join(self.work, name)
+        if kind in ("rel", "relPath"):
+            # relative to the current directory (the run's work directory)
+            os.chdir(self.work)
+            return Path(name) if kind == "relPath" else os.path.join(".", name)
         return Path(p) if kind == "Path" else p
 
     def call(self, fn, armed=None):
